@@ -270,7 +270,15 @@ func bitsPhase(r *rng.R, thorough bool) {
 				buf[k] = 0
 			}
 		}
-		rd := pkg.NewBitsReader()
+		// ONE reader is reused for all raw cases (Reset on a reader whose previous buffer was read
+		// only in part, or that ran into its end): Reset must leave nothing of the previous
+		// buffer behind - the model starts every case from a fresh state
+		if sharedRaw == nil || i%7 == 0 {
+			sharedRaw = pkg.NewBitsReader()
+		} else {
+			stats["raw-reader-reused"]++
+		}
+		rd := sharedRaw
 		rd.Reset(buf)
 		note("case raw-%d", i)
 		emit("br new "+hx(buf), "ok")
@@ -289,6 +297,7 @@ func bitsPhase(r *rng.R, thorough bool) {
 			if panicked {
 				emit(lastRawOp, "panic")
 				stats["raw-reader-panics"]++
+				sharedRaw = nil
 				break
 			}
 			if rd.Error() != nil {
@@ -299,6 +308,7 @@ func bitsPhase(r *rng.R, thorough bool) {
 }
 
 var lastRawOp string
+var sharedRaw *pkg.BitsReader
 
 func rawStep(r *rng.R, rd *pkg.BitsReader) {
 	{
